@@ -928,7 +928,8 @@ Section StepN.
       + intros g. pose proof (Hfib g) as []. specialize (Ha g). pose proof (Hb g).
         pose proof (Hcn_upd (thr s) (nthr s) t T' g Ht) as EH. rewrite Hh' in EH.
         pose proof (Hcn_term (thr s) (nthr s) t g Ht).
-        constructor; rewrite ?wqz_set_thr; cbn [thr nthr dq fstt set_thr]; try lia. Show.
+        constructor; rewrite ?wqz_set_thr; cbn [thr nthr dq fstt set_thr];
+          repeat match goal with |- context [wqz ?S g] => progress change (wqz S g) with (wqz s g) end; try lia.
     - (* x stolen from the far end of deque dv of another thread *)
       assert (Hr : 2 * (t + 1) <= i' < lb_iend t (nthr s)) by lia.
       destruct (scan_deque t (nthr s) i' Ht Hr) as (Dv1 & Dv2 & Dv3).
@@ -948,9 +949,285 @@ Section StepN.
         pose proof (Hcn_upd (thr s) (nthr s) t (with_pc (thr s t) (PL2 k i' lc' rc' ms' x)) g Ht) as EH.
         pose proof (Hcn_term (thr s) (nthr s) t g Ht).
         pose proof (Qcn_upd dq0 (nthr s) dv l g Dv1) as EQ. rewrite Hdv, cnt_app in EQ. cbn [cnt] in EQ.
-        unfold held in EH at 3. cbn [pc with_pc cur cnt] in EH.
+        change (held (with_pc (thr s t) (PL2 k i' lc' rc' ms' x))) with (x :: opt (cur (thr s t))) in EH.
+        cbn [cnt] in EH.
         constructor; rewrite ?wqz_set_thr; cbn [thr nthr dq fstt set_thr];
+          repeat match goal with |- context [wqz ?S ?g0] => progress change (wqz S g0) with (wqz s g0) end;
           destruct (Nat.eqb_spec x g); try subst g; try lia.
       + unfold lokN; cbn. split; [exact Hk|]. split; [exact Hx2|lia].
   Qed.
+
+  Lemma stepN_PL1 k : pc (thr s t) = PL1 k -> InvN N own (fst (step s t)).
+  Proof.
+    intros Hpc. unfold step. rewrite Hpc. rewrite fst_let2.
+    pose proof Hloc as L. unfold lokN in L. rewrite Hpc in L.
+    assert (Hn5 : forall k0 tmp, pc (thr s t) <> PN5 k0 tmp) by (rewrite Hpc; discriminate).
+    assert (Hh : held (thr s t) = opt (cur (thr s t))) by (unfold held; rewrite Hpc; reflexivity).
+    unfold lb_continue. cbv zeta.
+    match goal with |- context [lb_scan ?a ?b ?c ?d ?e ?f ?g ?h] => destruct (lb_scan a b c d e f g h) as [dqs r] eqn:ES end.
+    eapply (inv_lb_scan (dq s) k); [| | | | | |exact ES]; auto.
+    - intros g. rewrite Hh. reflexivity.
+    - intros g. apply (n_queued N s g (Hfib g)).
+  Qed.
+
+  Lemma stepN_PL2 k i lc rc ms x : pc (thr s t) = PL2 k i lc rc ms x -> InvN N own (fst (step s t)).
+  Proof.
+    intros Hpc. unfold step. rewrite Hpc. rewrite fst_let2.
+    pose proof Hloc as L. unfold lokN in L. rewrite Hpc in L. destruct L as (Hk & Hx & Hi).
+    assert (Hn5 : forall k0 tmp, pc (thr s t) <> PN5 k0 tmp) by (rewrite Hpc; discriminate).
+    assert (Hh : held (thr s t) = x :: opt (cur (thr s t))) by (unfold held; rewrite Hpc; reflexivity).
+    pose proof own_dq as (D1 & D2 & D3).
+    unfold lb_continue. cbv zeta. cbn [nthr dq sfrom sto fstt inwq thr to_store set_dq].
+    match goal with |- context [lb_scan ?a ?b ?c ?d ?e ?f ?g ?h] => destruct (lb_scan a b c d e f g h) as [dqs r] eqn:ES end.
+    eapply (inv_lb_scan (upd (dq s) (sfrom s t) (x :: dq s (sfrom s t))) k); [| | | | | |exact ES]; auto.
+    - intros g. rewrite Hh. pose proof (Qcn_upd (dq s) (nthr s) (sfrom s t) (x :: dq s (sfrom s t)) g D1) as E.
+      cbn [cnt] in *. lia.
+    - intros g Hg. pose proof (Qcn_upd (dq s) (nthr s) (sfrom s t) (x :: dq s (sfrom s t)) g D1) as E.
+      cbn [cnt] in E. destruct (Nat.eqb_spec x g); [subst; auto|]. apply (n_queued N s g (Hfib g)). lia.
+    - intros d' H1 H2. apply upd_other. destruct Hfrom; lia.
+  Qed.
+
+  Theorem stepN_inv : InvN N own (fst (step s t)).
+  Proof.
+    destruct (pc (thr s t)) eqn:Hpc.
+    - eapply stepN_PSpawnR; eauto.
+    - eapply stepN_PSpawnW; eauto.
+    - eapply stepN_PSched; eauto.
+    - eapply stepN_PBlockW; eauto.
+    - eapply stepN_PYRead; eauto.
+    - eapply stepN_PN1; eauto.
+    - eapply stepN_PN2; eauto.
+    - eapply stepN_PN3; eauto.
+    - eapply stepN_PN4; eauto.
+    - eapply stepN_PN5; eauto.
+    - eapply stepN_PN6; eauto.
+    - eapply stepN_PN7; eauto.
+    - eapply stepN_PN8; eauto.
+    - eapply stepN_PN9; eauto.
+    - eapply stepN_PY2; eauto.
+    - eapply stepN_PY3; eauto.
+    - eapply stepN_PY4; eauto.
+    - eapply stepN_PL1; eauto.
+    - eapply stepN_PL2; eauto.
+    - eapply stepN_PI1; eauto.
+    - eapply stepN_PW1; eauto.
+    - eapply stepN_PW2; eauto.
+    - eapply stepN_PP1; eauto.
+    - eapply stepN_PP2; eauto.
+    - eapply stepN_PF1; eauto.
+    - eapply stepN_PF2; eauto.
+    - eapply stepN_Fin; eauto.
+  Qed.
 End StepN.
+
+(* ---------------- reachability ---------------- *)
+Lemma sumn_zero f n : (forall i, i < n -> f i = 0) -> sumn f n = 0.
+Proof. induction n; intros H; cbn; auto. rewrite IHn, H; auto. Qed.
+
+Definition progs_ok (N : nat) (own : nat -> nat) (progs : list (list op)) : Prop :=
+  forall t, t < length progs -> prog_okN N own t (nth t progs []).
+
+Lemma init_thr fixed progs t : t < length progs ->
+  thr (fst (init fixed progs)) t = snd (start t 0 (nth t progs []) 1).
+Proof.
+  intros Ht. cbn [init fst thr].
+  set (f := fun tp : nat * list op => start (fst tp) 0 (snd tp) 1).
+  assert (Hl : length (combine (seq 0 (length progs)) progs) = length progs).
+  { rewrite combine_length, seq_length. lia. }
+  rewrite (nth_indep _ _ (f (0, [])) ) by (rewrite map_length, Hl; exact Ht).
+  rewrite map_nth. rewrite combine_nth by (rewrite seq_length; reflexivity).
+  rewrite seq_nth by exact Ht. reflexivity.
+Qed.
+
+Lemma init_invN N own progs : progs_ok N own progs -> InvN N own (fst (init true progs)).
+Proof.
+  intros Hp.
+  assert (Hst : forall t, t < length progs ->
+            let T := thr (fst (init true progs)) t in
+            prog_okN N own t (prog T) /\ lokN N own (fst (init true progs)) t T /\ held T = []).
+  { intros t Ht. cbv zeta. rewrite (init_thr true progs t Ht).
+    assert (Hr : runN (fst (init true progs)) 0) by (left; reflexivity).
+    destruct (start_specN N own (fst (init true progs)) t (nth t progs []) 0 1 (Hp t Ht) Hr) as (_ & A & B & C & _).
+    auto. }
+  constructor.
+  - reflexivity.
+  - intros t Ht. cbn. lia.
+  - intros t Ht _. cbn. lia.
+  - intros f.
+    assert (H0 : Hcn (thr (fst (init true progs))) (nthr (fst (init true progs))) f = 0).
+    { unfold Hcn. apply sumn_zero. intros i Hi. destruct (Hst i Hi) as (_ & _ & E). rewrite E. reflexivity. }
+    assert (Q0 : Qcn (dq (fst (init true progs))) (nthr (fst (init true progs))) f = 0).
+    { unfold Qcn. apply sumn_zero. intros i Hi. reflexivity. }
+    constructor; rewrite ?H0, ?Q0; unfold wqz; cbn [init fst fstt inwq]; try lia.
+  - intros t Ht. apply (Hst t Ht).
+  - intros t Ht. apply (Hst t Ht).
+Qed.
+
+Lemma ready_lt s t : mstatus M s t = SReady -> t < nthr s.
+Proof.
+  cbn. unfold status_of. destruct (Nat.ltb_spec t (nthr s)); [auto|discriminate].
+Qed.
+
+Theorem reachable_invN N own progs s :
+  progs_ok N own progs -> reachable M (fst (init true progs)) s -> InvN N own s.
+Proof.
+  intros Hp R. induction R as [|s t R IH Hst].
+  - apply init_invN; exact Hp.
+  - apply stepN_inv; auto. apply ready_lt; exact Hst.
+Qed.
+
+(* ---------------- the conservation statement for N threads ---------------- *)
+(* all places: what each thread holds, then the deques 1..2n *)
+Definition placesN (s : st) : list nat :=
+  flat_map (fun t => held (thr s t)) (seq 0 (nthr s)) ++ flat_map (fun i => dq s (S i)) (seq 0 (2 * nthr s)).
+
+Lemma cnt_flat_map_seq (f : nat -> list nat) n g :
+  cnt (flat_map f (seq 0 n)) g = sumn (fun i => cnt (f i) g) n.
+Proof.
+  induction n; [reflexivity|]. rewrite seq_S, flat_map_app, cnt_app, IHn. cbn [flat_map sumn Nat.add].
+  rewrite app_nil_r. reflexivity.
+Qed.
+
+Lemma cnt_placesN s g : cnt (placesN s) g = Hcn (thr s) (nthr s) g + Qcn (dq s) (nthr s) g.
+Proof. unfold placesN, Hcn, Qcn. rewrite cnt_app, !cnt_flat_map_seq. reflexivity. Qed.
+
+Definition handedN (s : st) (t nf : nat) : Prop :=
+  match pc (thr s t) with
+  | PY2 x | PY3 x | PY4 x _ | PI1 x => x = nf
+  | _ => False
+  end.
+
+Lemma conservation_of_invN N own s : InvN N own s ->
+  NoDup (placesN s) /\
+  (forall f d, 1 <= d <= 2 * nthr s -> In f (dq s d) ->
+     fstt s f = 2%Z \/ fstt s f = 5%Z \/ (fstt s f = 3%Z /\ inwq s f = false)) /\
+  (forall f, fstt s f = 1%Z \/ fstt s f = 2%Z \/ fstt s f = 5%Z \/ (fstt s f = 3%Z /\ inwq s f = false) ->
+     In f (placesN s)) /\
+  (forall f, inwq s f = true -> fstt s f = 3%Z /\ ~ In f (placesN s)) /\
+  (forall t nf, t < nthr s -> handedN s t nf -> fstt s nf = 2%Z \/ fstt s nf = 3%Z) /\
+  (forall f, In f (placesN s) -> fstt s f <> 0%Z /\ 1 <= f <= N) /\
+  (forall f, fstt s f = 0 \/ fstt s f = 1 \/ fstt s f = 2 \/ fstt s f = 3 \/ fstt s f = 5)%Z /\
+  length (placesN s) <= N /\
+  (forall t, t < nthr s -> (sfrom s t = 2 * t + 1 \/ sfrom s t = 2 * t + 2) /\
+     ((forall k tmp, pc (thr s t) <> PN5 k tmp) -> sto s t = 4 * t + 3 - sfrom s t)).
+Proof.
+  intros I.
+  assert (Hnd : NoDup (placesN s)).
+  { apply cnt_NoDup. intros f. rewrite cnt_placesN. apply (n_once N s f (m_fib N own s I f)). }
+  assert (Hrng : forall f, In f (placesN s) -> fstt s f <> 0%Z /\ 1 <= f <= N).
+  { intros f Hf. apply cnt_In in Hf. rewrite cnt_placesN in Hf.
+    pose proof (m_fib N own s I f) as []. assert (fstt s f <> 0%Z) by lia. auto. }
+  split; [exact Hnd|].
+  split. { intros f d Hd Hf. pose proof (m_fib N own s I f) as [Ho Hq Hh Hp Hw Hb Hs Hr].
+           apply cnt_In in Hf. pose proof (Qcn_term (dq s) (nthr s) d f Hd).
+           destruct (inwq s f) eqn:E; [apply wqz_true in E; lia|]. lia. }
+  split. { intros f Hf. apply cnt_In. rewrite cnt_placesN.
+           pose proof (m_fib N own s I f) as [Ho Hq Hh Hp Hw Hb Hs Hr].
+           destruct (inwq s f) eqn:E; [apply wqz_true in E|apply wqz_false in E].
+           - destruct (Hw E) as [H3 _]. destruct Hf as [Hf|[Hf|[Hf|[_ Hf]]]]; try lia; try discriminate.
+           - assert (1 <= fstt s f)%Z by lia. specialize (Hp H E). lia. }
+  split. { intros f Hf. apply wqz_true in Hf. pose proof (m_fib N own s I f) as [Ho Hq Hh Hp Hw Hb Hs Hr].
+           destruct (Hw Hf) as [H3 H0]. split; auto. intros Hin. apply cnt_In in Hin.
+           rewrite cnt_placesN in Hin. lia. }
+  split. { intros t nf Ht Hh. pose proof (m_loc N own s I t Ht) as L. unfold handedN, lokN, hok in *.
+           destruct (pc (thr s t)); try contradiction; subst; tauto. }
+  split; [exact Hrng|].
+  split. { intros f. pose proof (n_state N s f (m_fib N own s I f)). lia. }
+  split. { apply NoDup_range_length; auto. intros f Hf. apply (Hrng f Hf). }
+  intros t Ht. split; [apply (m_from N own s I t Ht)|apply (m_to N own s I t Ht)].
+Qed.
+
+(* ------------------------------------------------------------------ *)
+(* Fairness under work stealing: the machine instrumented, per fiber g, with
+     nbyp g = number of times the thread on whose deques g is queued (and not
+              SAVING) handed out ANOTHER fiber, since g was last handed out or
+              stolen;
+     nstl g = number of stolen fibers that this thread's load_balance pushed in
+              front of its schedule_from deque while g was queued on it (each
+              one will be popped before g);
+     nmx g  = the largest number of fibers that were on this thread (held by it
+              or in its two deques) at any time since g was queued on it.
+   All three are reset when g is handed out and when g is stolen (the interval
+   "g waits on thread t" ends).  *)
+Record nst := { nbase : st; nbyp : nat -> nat; nstl : nat -> nat; nmx : nat -> nat }.
+
+Definition inqN (s : st) (t g : nat) : bool :=
+  existsb (Nat.eqb g) (dq s (2 * t + 1) ++ dq s (2 * t + 2)).
+Definition cntT (s : st) (t : nat) : nat :=
+  length (held (thr s t)) + length (dq s (2 * t + 1)) + length (dq s (2 * t + 2)).
+
+(* the fiber that thread t hands out in this step / steals in this step *)
+Definition handout (s : st) (t : nat) : option nat :=
+  match pc (thr s t) with
+  | PN8 _ y => if Z.eqb (fstt s y) 5 then None else Some y
+  | _ => None
+  end.
+Definition stolen (s s' : st) (t : nat) : option nat :=
+  match pc (thr s t), pc (thr s' t) with
+  | PL1 _, PL2 _ _ _ _ _ x | PL2 _ _ _ _ _ _, PL2 _ _ _ _ _ x => Some x
+  | _, _ => None
+  end.
+Definition is_some_eq (o : option nat) (g : nat) : bool :=
+  match o with Some y => Nat.eqb g y | None => false end.
+
+Definition nstep (x : nst) (t : nat) : nst :=
+  let s := nbase x in
+  let s' := fst (step s t) in
+  let ho := handout s t in
+  let so := stolen s s' t in
+  let rst g := is_some_eq ho g || is_some_eq so g in
+  {| nbase := s';
+     nbyp := fun g => if rst g then 0
+                      else match ho with
+                           | Some _ => if negb (Z.eqb (fstt s g) 5) && inqN s t g then S (nbyp x g) else nbyp x g
+                           | None => nbyp x g
+                           end;
+     nstl := fun g => if rst g then 0
+                      else match pc (thr s t) with
+                           | PL2 _ _ _ _ _ _ => if inqN s t g then S (nstl x g) else nstl x g
+                           | _ => nstl x g
+                           end;
+     nmx := fun g => if rst g then 0
+                     else if inqN s' t g then Nat.max (nmx x g) (cntT s' t) else nmx x g |}.
+
+Lemma nstep_erase x t : nbase (nstep x t) = fst (step (nbase x) t).
+Proof. reflexivity. Qed.
+
+Definition ninit (fixed : bool) (progs : list (list op)) : nst :=
+  {| nbase := fst (init fixed progs); nbyp := fun _ => 0; nstl := fun _ => 0; nmx := fun _ => 0 |}.
+
+Inductive nreach (fixed : bool) (progs : list (list op)) : nst -> Prop :=
+| nr_init : nreach fixed progs (ninit fixed progs)
+| nr_step x t : nreach fixed progs x -> mstatus M (nbase x) t = SReady -> nreach fixed progs (nstep x t).
+
+Lemma nreach_base fixed progs x : nreach fixed progs x -> reachable M (fst (init fixed progs)) (nbase x).
+Proof. induction 1 as [|x t R IH Hst]; [constructor|]. apply (reach_step M _ (nbase x) t IH Hst). Qed.
+
+Lemma reachable_nreach fixed progs s :
+  reachable M (fst (init fixed progs)) s -> exists x, nreach fixed progs x /\ nbase x = s.
+Proof.
+  induction 1 as [|s t R [x [Hx Hb]] Hst].
+  - exists (ninit fixed progs). split; [constructor|reflexivity].
+  - exists (nstep x t). split; [constructor; auto; rewrite Hb; exact Hst|]. cbn. rewrite Hb. reflexivity.
+Qed.
+
+Definition ngrant (x : nst) (t : nat) : nst :=
+  match mstatus M (nbase x) t with SReady => nstep x t | _ => x end.
+Definition nrun (x : nst) (sch : list nat) : nst := fold_left ngrant sch x.
+
+Lemma nreach_nrun fixed progs sch : forall x, nreach fixed progs x -> nreach fixed progs (nrun x sch).
+Proof.
+  induction sch as [|t r IH]; intros x R; cbn; auto.
+  apply IH. unfold ngrant. destruct (mstatus M (nbase x) t) eqn:E; auto. constructor; auto.
+Qed.
+
+Lemma nrun_erase sch : forall x, nbase (nrun x sch) = fst (run_sched M (nbase x) sch).
+Proof.
+  induction sch as [|t r IH]; intros x; cbn [nrun fold_left run_sched]; auto.
+  fold (nrun (ngrant x t) r). rewrite IH. unfold ngrant, grant.
+  destruct (mstatus M (nbase x) t) eqn:E.
+  - cbn. destruct (run_sched M (nbase x) r); reflexivity.
+  - cbn [nbase nstep]. change (mstep M (nbase x) t) with (step (nbase x) t).
+    destruct (step (nbase x) t) as [s1 e1]. cbn [fst]. destruct (run_sched M s1 r); reflexivity.
+  - cbn. destruct (run_sched M (nbase x) r); reflexivity.
+Qed.
